@@ -9,6 +9,7 @@ import Cte.Model.Check
 import Cte.Model.Purge
 import Cte.Model.Energy
 import Cte.Model.Indicators
+import Cte.Model.Sane
 import Cte.Model.RadTable
 import Cte.Model.Bvh
 import Cte.Model.BvhIter
@@ -36,6 +37,12 @@ def jStrs (l : List String) : J := J.arr (l.map J.str)
 
 def opCheck (m : Model) : J :=
   J.obj [("warnings", J.arr ((check m).map (fun w => J.arr [J.str w.id, J.str (warnKindStr w.kind)])))]
+
+/-- op `saneu`: the sanity test of `C14S.saneU_walls_finite` and the walls whose U-value carries a failed division -/
+def opSaneU (m : Model) : J :=
+  let F := Fns.approx 0
+  J.obj [("sane_u", J.bool (saneU F m)), ("nf_walls", jStrs (nfWalls F m)), ("walls", J.ofNat m.walls.length),
+         ("with_u", J.ofNat (m.walls.filter (fun w => (w.uValue F m).isSome)).length)]
 
 def opPurge (m : Model) : J :=
   let p := purge m
@@ -639,6 +646,7 @@ def handle (line : String) : String :=
       match req.get? "op" with
       | some (J.str "check") => withModel req opCheck
       | some (J.str "purge") => withModel req opPurge
+      | some (J.str "saneu") => withModel req opSaneU
       | some (J.str "yeardays") => withModel req opYearDays
       | some (J.str "occupancy") => withModel req opOccupancy
       | some (J.str "enddates") => opEndDates req
